@@ -140,7 +140,10 @@ Preserved(f) == ~f.panic /\ f.outcome = "accepted" /\ (~f.registered => f.kept)
 \* what the process (or the object) loaded before.  seq names the sequence run at the end of a section's
 \* cases, after hundreds of different files went through the component: "default-after-loads",
 \* "load-default-file-after-loads", "reload-on-used-object" (load A, then the default file, on one object),
-\* "load-twice" (A, something else, A again).  same: the saved form equals the reference taken before.
+\* "load-twice" (A, something else, A again); on ONE config.Manager: "manager-section-missing-set-missing"
+\* (a file without the section, the file with the section = A, the file without it again) and
+\* "manager-section-set-missing", both compared with a fresh Manager that loaded only the last file.
+\* same: the saved form equals the reference.
 OrderIndependent(f) == f.outcome = "accepted" /\ f.same
 
 \* save fact [mem, file, savers]: outcome of concurrent SaveJSON calls on a real Manager (spec/ConfigSave.tla
